@@ -180,10 +180,20 @@ func (w *World) AbsT(db *fakepg.DB) TState {
 	return st
 }
 
-// RunSyncT calls the real Sync (no faults) and observes every committed state of the trigger tables.
-func (w *World) RunSyncT() ([]TState, string, string) {
+// TObs is what one call of the real Sync produced (trigger tables).
+type TObs struct {
+	States []TState
+	Ret    string
+	Err    string
+	NRPC   int
+	NDB    int
+}
+
+// RunSyncT calls the real Sync under one concrete fault (zero value: none) and observes every
+// committed state of the trigger tables.
+func (w *World) RunSyncT(f ConcFault) TObs {
 	var mu sync.Mutex
-	var states []TState
+	var obs TObs
 	last := ""
 	observe := func() {
 		var a TState
@@ -191,31 +201,57 @@ func (w *World) RunSyncT() ([]TState, string, string) {
 		mu.Lock()
 		if c := a.canon(); c != last {
 			last = c
-			states = append(states, a)
+			obs.States = append(obs.States, a)
 		}
 		mu.Unlock()
 	}
 	observe()
+	ctx, cancel := context.WithCancel(context.Background())
+	defer cancel()
+	ndb := 0
 	w.PG.SetFault(func(ev fakepg.Event) fakepg.Fault {
-		if ev.IsMessage() {
-			observe()
+		if !ev.IsMessage() {
+			return fakepg.None
+		}
+		observe()
+		if !stmtLevel(ev) {
+			return fakepg.None
+		}
+		mu.Lock()
+		i := ndb
+		ndb++
+		mu.Unlock()
+		if f.Side == "db" && f.At == i {
+			switch f.Kind {
+			case "sqlerror":
+				return fakepg.SQLError
+			case "drop":
+				return fakepg.DropBefore
+			case "dropcommit":
+				return fakepg.DropAfterCommit
+			}
 		}
 		return fakepg.None
 	})
-	ret, errs := "ok", ""
+	w.Eth.ResetCalls()
+	w.Eth.SetFault(func(c fakeeth.Call) error {
+		if f.Side == "rpc" && f.At == c.N {
+			return errInjected
+		}
+		return nil
+	})
+	obs.Ret = "ok"
 	done := make(chan struct{})
-	ctx, cancel := context.WithCancel(context.Background())
-	defer cancel()
 	header := w.Eth.Head().Header
 	go func() {
 		defer close(done)
 		defer func() {
 			if r := recover(); r != nil {
-				ret, errs = "panic", fmt.Sprint(r)
+				obs.Ret, obs.Err = "panic", fmt.Sprint(r)
 			}
 		}()
 		if err := w.sync(ctx, header); err != nil {
-			ret, errs = "err", err.Error()
+			obs.Ret, obs.Err = "err", err.Error()
 		}
 	}()
 	select {
@@ -226,21 +262,58 @@ func (w *World) RunSyncT() ([]TState, string, string) {
 		case <-done:
 		case <-time.After(watchdog):
 		}
-		ret = "hang"
+		obs.Ret = "hang"
 	}
 	w.PG.SetFault(nil)
+	w.Eth.SetFault(nil)
 	observe()
-	return states, ret, errs
+	obs.NRPC = len(w.Eth.Calls())
+	mu.Lock()
+	obs.NDB = ndb
+	mu.Unlock()
+	return obs
+}
+
+// candidatesT: every RPC call index fails once; every statement-level database message gets an
+// SQL error once and a commit-then-drop once (MultiEventSyncer returns every error, so a dropped
+// connection and a cancelled context behave like the SQL error; C15 enumerates those too).
+func candidatesT(nrpc, ndb int) []ConcFault {
+	out := []ConcFault{}
+	for i := 0; i < nrpc; i++ {
+		out = append(out, ConcFault{"rpc", i, "error"})
+	}
+	for i := 0; i < ndb; i++ {
+		out = append(out, ConcFault{"db", i, "sqlerror"}, ConcFault{"db", i, "dropcommit"})
+	}
+	return out
 }
 
 // ---- plans, generation ---------------------------------------------------------------------------
 
 type TOp struct {
-	Op  string   `json:"op"`
-	A   int      `json:"a"`
-	Evs []string `json:"evs"`
-	Exp int      `json:"exp"`
-	T   []any    `json:"t,omitempty"` // sync: [rollback, number of ranges (0,1,2+), known finding D6 hit]
+	Op   string   `json:"op"`
+	A    int      `json:"a"`
+	Evs  []string `json:"evs"`
+	Exp  int      `json:"exp"`
+	T    []any    `json:"t,omitempty"` // sync: [rollback, number of ranges (0,1,2+), known finding D6 hit, failed]
+	Cut  int      `json:"cut"`         // sync: -1 no failure, else number of transactions committed before the failure
+	Post *struct {
+		Synced AbsSynced `json:"synced"`
+		Regs   []TRegRow `json:"regs"`
+		Fired  []AbsRow  `json:"fired"`
+	} `json:"post,omitempty"`
+}
+
+func (o TOp) postState() TState {
+	st := TState{Regs: []TRegRow{}, Fired: []AbsRow{}}
+	if o.Post != nil {
+		st.Synced = o.Post.Synced
+		st.Regs = append(st.Regs, o.Post.Regs...)
+		st.Fired = append(st.Fired, o.Post.Fired...)
+	}
+	sort.Slice(st.Regs, func(i, j int) bool { return st.Regs[i].Key < st.Regs[j].Key })
+	sort.Slice(st.Fired, func(i, j int) bool { return st.Fired[i].Key < st.Fired[j].Key })
+	return st
 }
 
 func (o TOp) class() string { return fmt.Sprint(o.T) }
@@ -259,6 +332,7 @@ type TPlan struct {
 	ExpOffsets                                            []int
 	D, MaxR, Start0                                       int
 	MaxBeh                                                int
+	EnumEvery                                             int // every n-th history: each A step under every concrete fault
 }
 
 // codeFetch names the variant of EventTrigger.tla that describes the current repository code:
@@ -271,7 +345,7 @@ func (p TPlan) cfgText(allowKnown bool) string {
 		offs = append(offs, fmt.Sprint(o))
 	}
 	return fmt.Sprintf("CONSTANTS\n  MaxBlocks = %d\n  MaxNum = %d\n  MaxLeaves = %d\n  MaxEntries = %d\n  MaxPerBlock = %d\n  NTrig = %d\n  ExpOffsets = {%s}\n"+
-		"  D = %d\n  MaxR = %d\n  Start0 = %d\n  Fetch = %q\n  AllowKnown = %s\n  Emit = TRUE\n"+
+		"  D = %d\n  MaxR = %d\n  Start0 = %d\n  Fetch = %q\n  AllowKnown = %s\n  Emit = TRUE\n  Faults = TRUE\n"+
 		"SPECIFICATION Spec\nINVARIANT C16_InvCex\nINVARIANT EmitInv\nVIEW View\nCHECK_DEADLOCK FALSE\n",
 		p.MaxBlocks, p.MaxNum, p.MaxLeaves, p.MaxEntries, p.MaxPerBlock, p.NTrig, strings.Join(offs, ", "),
 		p.D, p.MaxR, p.Start0, codeFetch, strings.ToUpper(fmt.Sprint(allowKnown)))
@@ -333,64 +407,95 @@ type TLine struct {
 	Canon  int      `json:"canon,omitempty"`
 	States []TState `json:"states,omitempty"`
 	Ret    string   `json:"ret,omitempty"`
+	Fault  bool     `json:"fault"`
+	Var    bool     `json:"var"`
 }
 
 // TOrigin is the context of a trace line for reports and replay files.
 type TOrigin struct {
-	Plan string `json:"plan"`
-	Cfg  TCfg   `json:"cfg"`
-	Seed int64  `json:"seed"`
-	Hist []TOp  `json:"hist"`
-	Step int    `json:"step"`
-	Who  string `json:"who"`
-	Err  string `json:"err,omitempty"`
-	Line TLine  `json:"line"`
+	Plan string    `json:"plan"`
+	Cfg  TCfg      `json:"cfg"`
+	Seed int64     `json:"seed"`
+	Hist []TOp     `json:"hist"`
+	Step int       `json:"step"`
+	Who  string    `json:"who"`
+	Err  string    `json:"err,omitempty"`
+	Conc ConcFault `json:"fault"`
+	Line TLine     `json:"line"`
 }
 
 func cfgOf(t TCfg) Cfg { return Cfg{D: t.D, MaxR: t.MaxR, Start0: t.Start0} }
 
 // replayT runs one history on keyper A (the plan's range size, syncing where the history says)
 // and the reference keyper B (range 1, syncing after every head move).
-func replayT(plan string, cfgA TCfg, seed int64, hist []TOp) ([]TLine, []TOrigin, error) {
+func replayT(plan string, cfgA TCfg, seed int64, hist []TOp, enum bool, forced *ConcFault) ([]TLine, []TOrigin, int, error) {
 	a, err := NewWorld(FlMulti, cfgOf(cfgA), 1, seed)
 	if err != nil {
-		return nil, nil, err
+		return nil, nil, 0, err
 	}
 	defer a.Close()
 	cfgB := cfgA
 	cfgB.MaxR = 1
 	b, err := NewFollower(a, cfgOf(cfgB))
 	if err != nil {
-		return nil, nil, err
+		return nil, nil, 0, err
 	}
 	defer b.Close()
-	b.Blk = nil
 	lines := []TLine{{K: "new"}}
 	origins := []TOrigin{{Plan: plan}}
-	call := func(w *World, who string, cfg TCfg, step int) {
-		w2 := w
-		if w.leader != nil {
-			w2.Blk, w2.Canon = w.leader.Blk, w.leader.Canon
-		}
-		states, ret, errs := w.RunSyncT()
+	diverged := 0
+	call := func(w *World, who string, cfg TCfg, step int, f ConcFault, variant bool) TObs {
+		o := w.RunSyncT(f)
 		cc := cfg
-		line := TLine{K: "sync", Who: who, Cfg: &cc, Blk: a.TreeCopy(), Canon: a.Canon, States: states, Ret: ret}
+		line := TLine{K: "sync", Who: who, Cfg: &cc, Blk: a.TreeCopy(), Canon: a.Canon, States: o.States, Ret: o.Ret, Fault: f.Side != "", Var: variant}
 		lines = append(lines, line)
-		origins = append(origins, TOrigin{Plan: plan, Cfg: cfgA, Seed: seed, Hist: hist[:step+1], Step: step, Who: who, Err: errs, Line: line})
+		origins = append(origins, TOrigin{Plan: plan, Cfg: cfgA, Seed: seed, Hist: hist[:step+1], Step: step, Who: who, Err: o.Err, Conc: f, Line: line})
+		return o
 	}
 	for i, op := range hist {
 		switch op.Op {
 		case "mine":
 			a.MineT(op.A, op.Evs, op.Exp)
-			call(b, "B", cfgB, i)
+			call(b, "B", cfgB, i, ConcFault{}, false)
 		case "switch":
 			a.Switch(op.A)
-			call(b, "B", cfgB, i)
+			call(b, "B", cfgB, i, ConcFault{}, false)
 		case "sync":
-			call(a, "A", cfgA, i)
+			if forced != nil && i == len(hist)-1 {
+				call(a, "A", cfgA, i, *forced, false)
+				continue
+			}
+			if !enum && op.Cut < 0 {
+				call(a, "A", cfgA, i, ConcFault{}, false)
+				continue
+			}
+			// the step under every concrete fault, each from the same database state (variants),
+			// then the run the behaviour continues with: fault-free, or - if TLC made this call
+			// fail - a fault that leaves the database in the state TLC predicted
+			snap := a.PG.Snapshot()
+			ref := call(a, "A", cfgA, i, ConcFault{}, true)
+			want := op.postState().canon()
+			chosen := ConcFault{}
+			found := op.Cut < 0
+			for _, f := range candidatesT(ref.NRPC, ref.NDB) {
+				if !enum && found {
+					break
+				}
+				a.PG.Restore(snap)
+				o := call(a, "A", cfgA, i, f, true)
+				if !found && o.Ret == "err" && o.States[len(o.States)-1].canon() == want {
+					chosen, found = f, true
+				}
+			}
+			a.PG.Restore(snap)
+			if !found {
+				diverged++
+				return lines, origins, diverged, nil // the real code cannot fail the way the model does; the variants tell why
+			}
+			call(a, "A", cfgA, i, chosen, false)
 		}
 	}
-	return lines, origins, nil
+	return lines, origins, diverged, nil
 }
 
 type TFinding struct {
@@ -407,6 +512,8 @@ type TOutcome struct {
 	Findings   []TFinding
 	Drift      []*TOrigin
 	Fired      int // calls after which some trigger was recorded as fired
+	Faulted    int // calls made under an injected fault
+	Diverged   int
 }
 
 func validateT(lines []TLine, origins []TOrigin, workers int) ([]TFinding, []*TOrigin, int, int, error) {
@@ -501,6 +608,7 @@ func replayAndValidateT(c *core.Ctx, g *TGen, extra [][]TOp) (*TOutcome, error) 
 	type res struct {
 		lines   []TLine
 		origins []TOrigin
+		div     int
 		err     error
 	}
 	results := make([]res, len(beh))
@@ -512,7 +620,7 @@ func replayAndValidateT(c *core.Ctx, g *TGen, extra [][]TOp) (*TOutcome, error) 
 			defer wg.Done()
 			sem <- struct{}{}
 			defer func() { <-sem }()
-			results[i].lines, results[i].origins, results[i].err = replayT(p.Name, cfgA, c.Seed, beh[i])
+			results[i].lines, results[i].origins, results[i].div, results[i].err = replayT(p.Name, cfgA, c.Seed, beh[i], p.EnumEvery > 0 && i%p.EnumEvery == 0, nil)
 		}(i)
 	}
 	wg.Wait()
@@ -523,11 +631,15 @@ func replayAndValidateT(c *core.Ctx, g *TGen, extra [][]TOp) (*TOutcome, error) 
 			return nil, r.err
 		}
 		out.Behaviours++
+		out.Diverged += r.div
 		lines = append(lines, r.lines...)
 		origins = append(origins, r.origins...)
 		for _, l := range r.lines {
 			if l.K == "sync" {
 				out.Calls++
+				if l.Fault {
+					out.Faulted++
+				}
 				if len(l.States[len(l.States)-1].Fired) > 0 {
 					out.Fired++
 				}
@@ -632,20 +744,20 @@ func plansC16(thorough bool) []TPlan {
 	plans := []TPlan{
 		// linear chains, every partition, range sizes 2, 3 and "unlimited" (the reference keyper has 1)
 		{Name: "lin-r2", MaxBlocks: d(5, 6), MaxNum: d(4, 5), MaxLeaves: 1, MaxEntries: d(3, 4), MaxPerBlock: 2, NTrig: d(1, 2), ExpOffsets: offs,
-			D: 2, MaxR: 2, Start0: 1, MaxBeh: d(200, 5000)},
+			D: 2, MaxR: 2, Start0: 1, MaxBeh: d(200, 5000), EnumEvery: d(3, 3)},
 		{Name: "lin-r3", MaxBlocks: d(5, 6), MaxNum: d(4, 5), MaxLeaves: 1, MaxEntries: d(3, 4), MaxPerBlock: 2, NTrig: d(1, 2), ExpOffsets: offs,
-			D: 2, MaxR: 3, Start0: 1, MaxBeh: d(200, 5000)},
+			D: 2, MaxR: 3, Start0: 1, MaxBeh: d(200, 5000), EnumEvery: d(3, 3)},
 		{Name: "lin-2trig", MaxBlocks: d(4, 5), MaxNum: d(3, 4), MaxLeaves: 1, MaxEntries: d(3, 4), MaxPerBlock: 2, NTrig: 2, ExpOffsets: offs2,
-			D: 2, MaxR: 10, Start0: 1, MaxBeh: d(200, 5000)},
+			D: 2, MaxR: 10, Start0: 1, MaxBeh: d(200, 5000), EnumEvery: d(3, 3)},
 		// forks: registrations and logs on both sides, rollback of registrations and fired rows.
 		// Depth 1 makes a rollback stop right below an abandoned block with few blocks.
 		{Name: "fork", MaxBlocks: d(5, 6), MaxNum: d(3, 4), MaxLeaves: 2, MaxEntries: d(2, 3), MaxPerBlock: d(1, 2), NTrig: 1, ExpOffsets: []int{1, 50},
-			D: 1, MaxR: 3, Start0: 1, MaxBeh: d(250, 6000)},
+			D: 1, MaxR: 3, Start0: 1, MaxBeh: d(250, 6000), EnumEvery: d(3, 3)},
 	}
 	if thorough {
 		// rollback deeper than the fork: fired rows of common blocks are deleted and fired again
 		plans = append(plans, TPlan{Name: "fork-d2", MaxBlocks: 6, MaxNum: 4, MaxLeaves: 2, MaxEntries: 3, MaxPerBlock: 1, NTrig: 1, ExpOffsets: []int{1, 50},
-			D: 2, MaxR: 3, Start0: 1, MaxBeh: 6000})
+			D: 2, MaxR: 3, Start0: 1, MaxBeh: 6000, EnumEvery: 3})
 	}
 	return plans
 }
@@ -781,9 +893,9 @@ func checkC16(c *core.Ctx) int {
 			return core.ExitInconclusive
 		}
 		outs = append(outs, out)
-		c.Logf("plan %s: %d behaviours replayed on two keypers, %d real Sync calls, %d lines validated, %d findings, %d drift", p.Name,
-			out.Behaviours, out.Calls, out.Lines, len(out.Findings), len(out.Drift))
-		if out.Behaviours == 0 || out.Lines == 0 || out.Fired == 0 {
+		c.Logf("plan %s: %d behaviours replayed on two keypers, %d real Sync calls (%d under an injected fault), %d lines validated, %d findings, %d drift, %d diverged", p.Name,
+			out.Behaviours, out.Calls, out.Faulted, out.Lines, len(out.Findings), len(out.Drift), out.Diverged)
+		if out.Behaviours == 0 || out.Lines == 0 || out.Fired == 0 || out.Faulted == 0 {
 			fmt.Printf("INCONCLUSIVE: plan %s replayed nothing (or no trigger ever fired)\n", p.Name)
 			return core.ExitInconclusive
 		}
@@ -807,7 +919,7 @@ func checkC16(c *core.Ctx) int {
 			if reported < 3 {
 				reported++
 				path := c.WriteReplay(fmt.Sprintf("%s-%s-%d", p.Name, f.Monitor, reported), f.Origin)
-				what := fmt.Sprintf("monitor %s failed: plan=%s keyper=%s range=%d states=%s hist=%s", f.Monitor, p.Name, f.Origin.Who, f.Origin.Line.Cfg.MaxR,
+				what := fmt.Sprintf("monitor %s failed: plan=%s keyper=%s range=%d fault=%s ret=%s states=%s hist=%s", f.Monitor, p.Name, f.Origin.Who, f.Origin.Line.Cfg.MaxR, f.Origin.Conc, f.Origin.Line.Ret,
 					tStatesString(f.Origin.Line.States), tHistString(f.Origin.Hist))
 				if f.Monitor == "C16_Known_D6" {
 					what += " (this is defect D6, see out/notes/C16-known.json; it is not listed in known_findings.json)"
@@ -850,7 +962,7 @@ func writeEvidenceC16(c *core.Ctx, outs []*TOutcome, violations, knownHits int) 
 		p := o.Gen.Plan
 		plans = append(plans, map[string]any{"plan": p.Name, "max_blocks": p.MaxBlocks, "triggers": p.NTrig, "range_A": p.MaxR, "leaves": p.MaxLeaves,
 			"tlc_distinct_states": o.Gen.Distinct, "tlc_states_generated": o.Gen.States, "tlc_wall_s": o.Gen.Wall,
-			"behaviours_replayed": o.Behaviours, "real_sync_calls": o.Calls, "lines_validated": o.Lines, "drift_lines": len(o.Drift), "calls_with_fired_triggers": o.Fired})
+			"behaviours_replayed": o.Behaviours, "real_sync_calls": o.Calls, "calls_under_injected_fault": o.Faulted, "diverged": o.Diverged, "lines_validated": o.Lines, "drift_lines": len(o.Drift), "calls_with_fired_triggers": o.Fired})
 		if len(o.Gen.Behaviours) > 0 {
 			samples = append(samples, map[string]any{"plan": p.Name, "history": tHistString(o.Gen.Behaviours[len(o.Gen.Behaviours)/2])})
 		}
@@ -867,7 +979,7 @@ func writeEvidenceC16(c *core.Ctx, outs []*TOutcome, violations, knownHits int) 
 	if err := ev.Write(ev.Evidence{PropertyID: c.Prop, Tier: c.Tier, Seed: c.Seed, Level: "model_checking", Coverage: cov,
 		Assumptions: []string{
 			"TLC and the Go toolchain are correct; fakeeth and fakepg behave like the real services for the calls and statements used",
-			"no faults: C16 quantifies over chains and schedules (faults are C15's subject); the head does not move inside a Sync call",
+			"faults: a Sync call of keyper A may fail at any RPC call / database statement (error returned, committed transactions stay); the reference keyper B runs fault-free; the head does not move inside a Sync call",
 			"a trigger identity is registered at most once per branch; triggers are never marked decrypted by the environment",
 			"exhaustive only within the constants of each plan",
 		}, WallS: time.Since(c.Start).Seconds(), Violations: violations}); err != nil {
@@ -886,7 +998,11 @@ func replayC16(c *core.Ctx) int {
 		fmt.Println("INCONCLUSIVE:", err)
 		return core.ExitInconclusive
 	}
-	lines, origins, err := replayT(o.Plan, o.Cfg, o.Seed, o.Hist)
+	var forced *ConcFault
+	if o.Conc.Side != "" {
+		forced = &o.Conc
+	}
+	lines, origins, _, err := replayT(o.Plan, o.Cfg, o.Seed, o.Hist, false, forced)
 	if err != nil {
 		fmt.Println("INCONCLUSIVE:", err)
 		return core.ExitInconclusive
